@@ -766,6 +766,22 @@ example : saveThenLoad writeTrunc [(1, str "old")] 1 richG = .ok (.ok (normLoc r
 example : saveThenLoad writeTrunc [(1, str "old")] 1 richG = .ok (.ok (normLoc richG)) := by decide +kernel
 example : TextRoundTrips richG = true := textRoundTrips_of_encodable richG (by decide +kernel)
 
+/-- the records the driver builds from an instant (`GoTime.ofUnix`, what `time.Unix(s, ns).In(zone)`
+holds): time of day and nanoseconds are in range for EVERY instant and zone … -/
+theorem ofUnix_time_of_day (u : Int) (ns : Nat) (off : Int) (loc : String) :
+    (GoTime.ofUnix u ns off loc).hour < 24 ∧ (GoTime.ofUnix u ns off loc).min < 60 ∧
+    (GoTime.ofUnix u ns off loc).sec < 60 ∧ (GoTime.ofUnix u ns off loc).nsec = ns := by
+  unfold GoTime.ofUnix
+  simp only []
+  refine ⟨?_, ?_, ?_, trivial⟩ <;> omega
+/-- … month 1..12 / day 1..31 of `civilFromDays` is evaluated here on the corners (zero time, year 0,
+last second of 9999, 29 February, +14 h), not proved for every day number (see notes/C18.md) -/
+example : WallClockOK (GoTime.ofUnix zeroUnix 0 0 "") = true ∧
+    WallClockOK (GoTime.ofUnix 1709251199 999999999 (-12600) "x") = true ∧
+    WallClockOK (GoTime.ofUnix 253402300799 1 0 "") = true ∧
+    WallClockOK (GoTime.ofUnix (-62167219200) 0 0 "") = true ∧
+    WallClockOK (GoTime.ofUnix 951782400 0 50400 "") = true := by decide +kernel
+
 /-- loading never yields an invalid genesis, whatever bytes the path holds -/
 theorem genesis_loaded_is_valid (bs : Bytes) (g : Genesis) (h : loadBytes bs = .ok g) : validate g = none := by
   unfold loadBytes at h
